@@ -127,7 +127,7 @@ func genSet(rt *rapid.T, label string, names []string) wset {
 	var ws wset
 	for i, n := range names {
 		if mask&(1<<i) != 0 {
-			ws = append(ws, fent{Name: n, Len: rapid.SampledFrom([]int{8, 8, 100, 5000, 0}).Draw(rt, label+".len."+fmt.Sprint(i))})
+			ws = append(ws, fent{Name: n, Len: rapid.SampledFrom([]int{8, 8, 100, 5000, 0, -1}).Draw(rt, label+".len."+fmt.Sprint(i))})
 		}
 	}
 	return ws
